@@ -6,11 +6,13 @@ import json, os, subprocess
 V = os.path.dirname(os.path.dirname(os.path.abspath(__file__)))
 props = [json.loads(l) for l in open(os.path.join(V, "properties.jsonl"))]
 checks, na, claimed = [], [], []
+# the coordinator's list of claimed properties (builders copy props files around, so the flag inside them is not trusted)
+CLAIMED = set(open(os.path.join(V, "props", "CLAIMED.txt")).read().split())
 for p in props:
     pid = p["id"]
     f = os.path.join(V, "props", pid + ".json")
     mf = json.load(open(f)).get("manifest", {}) if os.path.exists(f) else {}
-    if mf.get("claimed"):
+    if mf.get("claimed") and pid in CLAIMED:
         claimed.append(pid)
         checks.append({
             "property_id": pid,
